@@ -75,6 +75,10 @@ class ParallelAction : public AssembleAction {
     std::vector<Action*> children_;
 
     FinishedChildren finished_children_;
+
+    //! 暂停期间到达的子动作结果，恢复后重新处理
+    std::vector<std::pair<int, bool>> held_child_results_;
+    event::Loop::RunId replay_run_id_ = 0;
 };
 
 }
